@@ -174,7 +174,7 @@ func (s *Sch) Valid(r *hx.Rng) any {
 		return l
 	case "du":
 		return hx.Pick(r, s.Members).Valid(r)
-	case "lazy":
+	case "lazy", "wrap":
 		return s.Members[0].Valid(r)
 	}
 	panic("Valid " + s.Kind)
@@ -202,9 +202,14 @@ func (s *Sch) Invalid(r *hx.Rng, goT string) (any, bool) {
 				continue
 			}
 		}
+		if goT == "mapSA" {
+			if _, ok := c.(map[string]any); !ok {
+				continue
+			}
+		}
 		rejected := false
 		hx.Safely(func() {
-			_, err := s.Z.ParseAny(c)
+			_, err := s.Own(Clone(c))
 			rejected = err != nil
 		})
 		if rejected {
@@ -372,6 +377,8 @@ func (s *Sch) Children(v any) []Child {
 func (s *Sch) Corrupt(r *hx.Rng, v any, goT string, depth int) (any, []any, bool) {
 	// pass-through composites: the same value goes to the target / selected member
 	switch s.Kind {
+	case "wrap":
+		return s.Members[0].Corrupt(r, v, goT, depth)
 	case "lazy":
 		if r.Bool() {
 			return s.Members[0].Corrupt(r, v, goT, depth)
@@ -439,4 +446,129 @@ func (s *Sch) Unmodelled(v any) bool {
 		}
 	}
 	return false
+}
+
+// ---------- several faults in one input (C05) ----------
+
+func (s *Sch) childByElem(v any, key string) (Child, bool) {
+	for _, c := range s.Children(v) {
+		if AtomKey(c.Elem) == key {
+			return c, true
+		}
+	}
+	return Child{}, false
+}
+
+// through returns the member a pass-through composite hands the same value to (nil if it has none / it is unknown).
+func (s *Sch) through(r *hx.Rng, v any) *Sch {
+	switch s.Kind {
+	case "wrap", "lazy":
+		return s.Members[0]
+	case "du":
+		if mv, ok := v.(map[string]any); ok {
+			if i, ok := s.DiscMap[AtomKey(mv[s.Disc])]; ok {
+				return s.Members[i]
+			}
+		}
+	case "inter":
+		return hx.Pick(r, s.Members)
+	case "union", "xor": // the member that accepts the (valid) value
+		for _, m := range s.Members {
+			ok := false
+			hx.Safely(func() { _, err := m.Own(Clone(v)); ok = err == nil })
+			if ok && m.Kind != "leaf" {
+				return m
+			}
+		}
+	}
+	return nil
+}
+
+func prefixed(el any, subs [][]any) [][]any {
+	out := make([][]any, len(subs))
+	for i, p := range subs {
+		out[i] = append([]any{el}, p...)
+	}
+	return out
+}
+
+// CorruptMany plants up to k faults, one below each of k DISTINCT children of v (each at any depth
+// below that child): the container then has to report issues of several members side by side.
+func (s *Sch) CorruptMany(r *hx.Rng, v any, goT string, k, depth int) (any, [][]any, bool) {
+	if t := s.through(r, v); t != nil {
+		return t.CorruptMany(r, v, goT, k, depth)
+	}
+	ch := s.Children(v)
+	if len(ch) == 0 {
+		nv, loc, ok := s.Corrupt(r, v, goT, depth)
+		return nv, [][]any{loc}, ok
+	}
+	if s.Kind == "record" {
+		// a record stops at the FIRST value its value schema rejects, in map order (types/record.go:739): with two
+		// faulty entries the reported one differs from call to call, so a record gets one faulty entry at a time
+		k = 1
+	}
+	keys := make([]string, len(ch))
+	for i, c := range ch {
+		keys[i] = AtomKey(c.Elem)
+	}
+	for i := len(keys) - 1; i > 0; i-- { // shuffle
+		j := r.Intn(i + 1)
+		keys[i], keys[j] = keys[j], keys[i]
+	}
+	if len(keys) > k {
+		keys = keys[:k]
+	}
+	cur := v
+	var locs [][]any
+	seen := map[string]bool{}
+	for _, key := range keys {
+		c, ok := s.childByElem(cur, key)
+		if !ok {
+			continue
+		}
+		nv, sub, ok := c.M.Corrupt(r, c.V, c.GoT, depth-1)
+		if !ok {
+			continue
+		}
+		el := c.Elem
+		if s.Kind == "set" {
+			el = nv
+		}
+		if msg := hx.Safely(func() { cur = c.Replace(nv) }); msg != "" {
+			continue // the value cannot be stored in this (typed) container
+		}
+		loc := append([]any{el}, sub...)
+		if id := fmt.Sprintf("%#v", loc); !seen[id] {
+			seen[id] = true
+			locs = append(locs, loc)
+		}
+	}
+	return cur, locs, len(locs) > 0
+}
+
+// CorruptBelow walks `descend` container levels down (preferring composite children) and plants k
+// faults side by side there: descend = 0 in sibling members of the top container, 1 in sibling
+// elements of one of its members, 2 inside ONE element of a member (that element reports ≥ 2 issues).
+func (s *Sch) CorruptBelow(r *hx.Rng, v any, goT string, descend, k, depth int) (any, [][]any, bool) {
+	if t := s.through(r, v); t != nil {
+		return t.CorruptBelow(r, v, goT, descend, k, depth)
+	}
+	if descend > 0 {
+		var comp []Child
+		for _, c := range s.Children(v) {
+			if c.M.Kind != "leaf" && s.Kind != "set" {
+				comp = append(comp, c)
+			}
+		}
+		if len(comp) > 0 {
+			c := hx.Pick(r, comp)
+			nv, subs, ok := c.M.CorruptBelow(r, c.V, c.GoT, descend-1, k, depth-1)
+			if !ok {
+				return nil, nil, false
+			}
+			return c.Replace(nv), prefixed(c.Elem, subs), true
+		}
+	}
+	return s.CorruptMany(r, v, goT, k, depth)
 }
